@@ -14,6 +14,7 @@ type stats = {
 let st = { cases = 0; steps = 0; corr_fail = 0; mon_fail = 0; aborts_impl = 0;
            distinct = Hashtbl.create 1024; opk = Hashtbl.create 16; resk = Hashtbl.create 32;
            monk = Hashtbl.create 16; rpcs = 0; breaches = 0; reorg_cases = 0 }
+let all_edges : (int * int, unit) Hashtbl.t = Hashtbl.create 32
 let bump tbl k = Hashtbl.replace tbl k (1 + (try Hashtbl.find tbl k with Not_found -> 0))
 
 let log_enabled = true   (* the harness installs a logger at level Info, as teosd does *)
@@ -173,6 +174,10 @@ let handle (lineno : int) (_line : string) (r : reader) : unit =
       let rpcs = List.init nr (fun _ -> let k = next_int r in let tx = next_int r in (k, tx)) in
       st.rpcs <- st.rpcs + nr;
       expect r "|";
+      (* lock-order pairs (held, requested) hook H3 observed in this step *)
+      let ne = next_int r in
+      let edges = List.init ne (fun _ -> let a = next_int r in let b = next_int r in (a, b)) in
+      expect r "|";
       incr nops; Buffer.add_string ops_text text; Buffer.add_string ops_text " | ; ";
       st.steps <- st.steps + 1;
       bump st.opk (String.sub text 0 1);
@@ -182,6 +187,11 @@ let handle (lineno : int) (_line : string) (r : reader) : unit =
       let o = mk sg in
       (match o with ODisconnect -> had_disc := true | _ -> ());
       let aborted = (match res_toks with "X" :: _ -> true | _ -> false) in
+      let kind = (match o with ORegister _ -> 0 | OAdd _ -> 1 | OGet _ -> 2 | OGetSub _ -> 3 | OConnect _ -> 4 | ODisconnect -> 5) in
+      List.iter (fun (a, b) ->
+        Hashtbl.replace all_edges (a, b) ();
+        if not (edge_allowed (n_of_int kind) (n_of_int a) (n_of_int b)) then
+          corr_fail step "locks" (Printf.sprintf "op-kind %d allows no pair %d->%d" kind a b) (Printf.sprintf "%d->%d" a b)) edges;
       (* --- model --- *)
       if !model_alive then begin
         let (t1, x) = Model.step log_enabled !t o script in
@@ -238,6 +248,13 @@ let handle (lineno : int) (_line : string) (r : reader) : unit =
 
 let summary () =
   if st.cases > 0 then begin
+    let el = Hashtbl.fold (fun (a, b) () acc -> (n_of_int a, n_of_int b) :: acc) all_edges [] in
+    let edges_s = String.concat "," (List.sort compare (Hashtbl.fold (fun (a, b) () acc -> Printf.sprintf "%d>%d" a b :: acc) all_edges [])) in
+    if not (acyclic el) then begin
+      st.mon_fail <- st.mon_fail + 1; bump st.monk 11;
+      Printf.printf "FAIL mon prop=C11 line=0 step=0 detail=lock-order-cycle:%s case=-\n" edges_s
+    end;
+    Printf.printf "LOCKEDGES %s\n" edges_s;
     let tbl t = String.concat "," (List.sort compare (Hashtbl.fold (fun k v acc -> Printf.sprintf "%s:%d" k v :: acc) t [])) in
     let tbli t = String.concat "," (List.sort compare (Hashtbl.fold (fun k v acc -> Printf.sprintf "C%02d:%d" k v :: acc) t [])) in
     Printf.printf "SUMMARY kind=TW cases=%d steps=%d rpcs=%d corr_fail=%d mon_fail=%d aborts_impl=%d distinct_nontrivial=%d breach_cases=%d reorg_cases=%d ops=%s results=%s mon=%s\n"
